@@ -20,10 +20,14 @@ RULE = (
     "exits). Monitor: number of actor bodies in progress <= tasks_limit at every entry. Liveness: every job executed within "
     "3 x sum(durations)/tasks_limit + 30 s (+ poll constants); a kernel deadlock verdict (nothing runnable, nothing scheduled) "
     "or the bound expiring with deliverable messages and a free slot is a stall; after an actor exit with backlog the next "
-    "entry follows within the broker's resume bound. non-trivial = the limit was reached; distinct = interleaving digest."
+    "entry follows within the broker's resume bound. In 30% of the in-memory/Redis runs a second worker with another actor "
+    "shares queue q0 and is saturated by slow jobs enqueued first: while it is saturated, the first worker must not sit on a "
+    "free slot with a deliverable message of its own waiting for more than 1 s + resume bound (the other liveness clauses are "
+    "not judged in these runs). non-trivial = the limit was reached; distinct = interleaving digest."
 )
 SHRINK_LISTS = ("jobs",)
-ASSUMPTIONS = ["resume bounds: in-memory 0.25 s, Redis 0.8 s, RabbitMQ 0.45 s + 6 network latencies (pause polling constants of the consumers)"]
+ASSUMPTIONS = ["resume bounds: in-memory 0.25 s, Redis 0.8 s, RabbitMQ 0.45 s + 6 network latencies (pause polling constants of the consumers), "
+               "+ 0.45 s per expired (ttl) message dead-lettered on the way on the polling network consumers"]
 
 RESUME = {"mem": 250_000, "redis": 800_000, "rabbit": 450_000}
 
@@ -63,7 +67,12 @@ def gen(rng, broker, tier):
         else:
             j["after"] = {"job": f"j{rng.randrange(0, i)}", "k": rng.randint(0, 6)}
         jobs.append(j)
-    return {"jobs": jobs, "tasks_limit": limit, "nq": nq,
+    second = None
+    if rng.random() < 0.3 and broker == "mem":
+        # (not on RabbitMQ: consumers with different topic filters on one queue bounce each other's messages by design)
+        # another worker with another actor shares queue q0 and is saturated by slow jobs which were enqueued first
+        second = {"n": rng.randint(3, 5), "dur_us": rng.choice([1_500_000, 3_000_000]), "limit": 1}
+    return {"jobs": jobs, "tasks_limit": limit, "nq": nq, "second": second,
             "knobs": {"step_cost": rng.choice([0, 0, 1, "rand"]),
                       "net": {"lat_lo": 50, "lat_hi": rng.choice([300, 3000]), "frag_p": rng.choice([0, 0.1])}}}
 
@@ -71,13 +80,20 @@ def gen(rng, broker, tier):
 async def _main(sim, sc, out):
     r = env.repid
     b = sc["broker"]
-    world = await World(sim, b, nodes=("w", "p"), buckets="none", knobs=sc.get("knobs")).setup()
+    second = sc.get("second")
+    world = await World(sim, b, nodes=("w", "p", "w2") if second else ("w", "p"), buckets="none", knobs=sc.get("knobs")).setup()
     connw, connp = world.conn("w"), world.conn("p")
+    zjobs = []
+    if second:
+        zjobs = [{"id": f"z{i}", "name": "bz", "queue": "q0", "prio": 5, "timeout_s": 600, "store_result": False, "use_bucket": False,
+                  "at_us": 0, "beh": [{"do": "return", "dur_us": second["dur_us"]}]} for i in range(second["n"])]
+        sc = dict(sc, jobs=zjobs + sc["jobs"])
     jobs = {j["id"]: j for j in sc["jobs"]}
     state = workload.ActorState(world, jobs)
     router = workload.build_router(state, [{"name": f"a{q}", "queue": f"q{q}", "policy": {"kind": "table", "us": [10_000]}}
                                            for q in range(sc["nq"])])
     V = out["violations"]
+    rec = world.rec
     limit = sc["tasks_limit"]
     lat = sc["knobs"]["net"]["lat_hi"] if b != "mem" else 0
     await sim.loop.spawn("p", r.Worker(routers=[router], _connection=connp).declare_all_queues())
@@ -99,6 +115,10 @@ async def _main(sim, sc, out):
         exits.append(sim.clock.us)
 
     def on_start(jid, n, node):
+        if node == "w2":
+            if state.inflight.get(node, 0) > second["limit"]:
+                V.append(violation("limit-exceeded", f"C09/{b}/second-worker-over-limit", running=state.inflight[node]))
+            return
         if state.inflight.get(node, 0) > limit:
             V.append(violation("limit-exceeded", f"C09/{b}/in-progress-{min(state.inflight[node], limit + 3) - limit}-over-limit",
                                limit=limit, running=state.inflight[node], id=jid))
@@ -109,6 +129,11 @@ async def _main(sim, sc, out):
     w = r.Worker(routers=[router], tasks_limit=limit, graceful_shutdown_time=3.0, _connection=connw)
     t0 = sim.clock.us
     wt = sim.loop.spawn("w", w.run())
+    wt2 = None
+    if second:
+        routerz = workload.build_router(state, [{"name": "bz", "queue": "q0", "policy": {"kind": "table", "us": [10_000]}}])
+        w2 = r.Worker(routers=[routerz], tasks_limit=second["limit"], graceful_shutdown_time=3.0, _connection=world.conn("w2"))
+        wt2 = sim.loop.spawn("w2", w2.run())
     total = sum((1_000_000 if x.get("timeout_s") == 1 else sum(bb.get("dur_us", 0) for bb in x["beh"])) for x in sc["jobs"])
     bound = t0 + 3 * total // limit + 30_000_000 + max((x.get("at_us", 0) for x in sc["jobs"]), default=0)
     out["_on_abort"] = lambda a: V.append(violation("stall", f"C09/{b}/kernel-{a.kind}", detail=a.detail)) if a.kind == "deadlock" else None
@@ -121,8 +146,33 @@ async def _main(sim, sc, out):
         done_ids = {e[2] for e in state.ends if e[4] in ("return", "hang")} | expired_dead()
         return all(j["id"] in done_ids for j in sc["jobs"])
 
+    stall_since = None
+    stall_bound = 1_000_000 + RESUME[b] + 10 * lat
+    started_ids: set = set()
     while sim.clock.us < bound and not wt.done():
         await asyncio.sleep(0.2)
+        if second:
+            # the first worker has a free slot and a matching, deliverable message of its own is waiting in the shared queue
+            started_now = {s_[2] for s_ in state.starts}
+            waiting = [k for k, v in enq.items() if not k.startswith("z") and k not in started_now and not jobs[k].get("ttl_s")
+                       and v["us"] < sim.clock.us - 500_000]
+            # judged only while the other worker is saturated (all its slots busy, its consumer paused): two *polling*
+            # in-memory consumers with different topics can rotate each other's head message in lock-step (equal 1 ms
+            # poll periods) - an interaction between workers, outside this property (one worker)
+            # "saturated" = all its slots busy AND one more message already taken and waiting for a slot (only then its
+            # consumer is paused and no longer polls)
+            taken_w2 = sum(1 for e_ in rec.events if e_.op == "consume" and e_.node == "w2" and e_.outcome == "returned")
+            started_w2 = sum(1 for s_ in state.starts if s_[4] == "w2")
+            if waiting and state.inflight.get("w", 0) < limit and state.inflight.get("w2", 0) >= second["limit"] \
+                    and taken_w2 > started_w2:
+                if stall_since is None:
+                    stall_since = sim.clock.us
+                elif sim.clock.us - stall_since > stall_bound:
+                    V.append(violation("stall", f"C09/{b}/free-slot-but-own-message-waits-behind-another-workers-backlog",
+                                       waiting=waiting[:5], for_us=sim.clock.us - stall_since, running=dict(state.inflight)))
+                    break
+            else:
+                stall_since = None
         if not anchored and all_done() and all(t.done() for t in pending_anchor) and prod.done():
             break
     finished = all_done()
@@ -131,10 +181,18 @@ async def _main(sim, sc, out):
         missing = [j["id"] for j in sc["jobs"] if j["id"] not in ({e[2] for e in state.ends if e[4] in ("return", "hang")} | expired_dead())]
         never_enq = [i for i in missing if i not in enq]
         really = [i for i in missing if i in enq]
-        if really:
+        if really and not second:
             V.append(violation("stall", f"C09/{b}/jobs-not-executed-within-bound/{place_summary(insp, really[0])}",
                                missing=really[:6], n_missing=len(really), running=dict(state.inflight), limit=limit))
+    if wt2 is not None:
+        sim.loop.deliver_signal("w2", signal.SIGINT)
     sim.loop.deliver_signal("w", signal.SIGINT)
+    if wt2 is not None:
+        try:
+            await asyncio.wait_for(asyncio.shield(wt2), timeout=60)
+        except BaseException as exc:  # noqa: BLE001
+            if isinstance(exc, (kernel.SimAbort, KeyboardInterrupt, SystemExit)):
+                raise
     try:
         await asyncio.wait_for(asyncio.shield(wt), timeout=60)
     except asyncio.TimeoutError:
@@ -144,7 +202,7 @@ async def _main(sim, sc, out):
             raise
         V.append(violation("worker-died", f"C09/{b}/worker-raised/{type(exc).__name__}", exc=repr(exc)[:200]))
     # resume bound: after an exit that left a free slot while deliverable backlog existed, the next start is near
-    starts = sorted(s[0] for s in state.starts)
+    starts = sorted(s[0] for s in state.starts if s[4] == "w")
     resume = RESUME[b] + 6 * lat
     rec = world.rec
     enq_times = sorted((v["us"], k) for k, v in enq.items())
@@ -153,17 +211,22 @@ async def _main(sim, sc, out):
         start_of.setdefault(s[2], s[0])
     worst = 0
     for (us, step, jid, n, how) in state.ends:
+        if second:
+            break  # (see above: lock-step rotation between two workers' consumers)
         # backlog at that instant: enqueued earlier, immediately deliverable, not yet started
-        waiting = [k for (t, k) in enq_times if t < us - 2 * lat - 1000 and start_of.get(k, 1 << 62) > us and not jobs[k].get("retries")
+        waiting = [k for (t, k) in enq_times if not k.startswith("z") and t < us - 2 * lat - 1000 and start_of.get(k, 1 << 62) > us and not jobs[k].get("retries")
                    and not jobs[k].get("ttl_s")]
         if not waiting:
             continue
         nxt = next((t for t in starts if t >= us), None)
         if nxt is None:
             continue
+        # every expired message found on the way costs the polling consumers one more round over the priorities
+        ttl_ahead = sum(1 for (t, k) in enq_times if jobs[k].get("ttl_s") and t < nxt and start_of.get(k, 1 << 62) > us)
+        allowed = resume + (0 if b == "mem" else ttl_ahead * (450_000 + 6 * lat))
         worst = max(worst, nxt - us)
-        if nxt - us > resume:
-            V.append(violation("slow-resume", f"C09/{b}/slot-free-but-next-start-late", gap_us=nxt - us, bound_us=resume,
+        if nxt - us > allowed:
+            V.append(violation("slow-resume", f"C09/{b}/slot-free-but-next-start-late", gap_us=nxt - us, bound_us=allowed,
                                after=jid, waiting=len(waiting)))
             break
     out["info"]["worst_resume_us"] = worst
